@@ -13,8 +13,8 @@ import (
 
 func init() {
 	register(&Prop{
-		ID:    "C15",
-		Title: "Paged List RPCs enumerate every item exactly once",
+		ID:          "C15",
+		Title:       "Paged List RPCs enumerate every item exactly once",
 		Explanation: "Scope: every handler under pkg/trait that pages with a key token (discovered as the callers of a package-local capPageSize: electric ListModes, hail ListHails, parent ListChildren, publication ListPublications, vending ListConsumables and ListInventory) and waste ListWasteRecords. R15.1 the page size used is within [1, max] for every int32 request value or the handler has returned an error status first: capPageSize's table maps 0 to the default and anything above the maximum to the maximum, and negative sizes are rejected with InvalidArgument before use. R15.2 every failure of decodePageToken is an InvalidArgument status and the handler returns it before doing anything else. R15.3 request-controlled indexes are bounded by the length of the indexed slice (waste's index token). R15.4 progress without duplicates: the next token is the key of the last element of the page, the search predicate over the listing is strict on that same key field (or non-strict followed by an equality skip), and a handler that sorts the listing itself sorts ascending by that field. R15.5 the token is cleared when the page reaches the end and total_size is the length of the full listing. R15.6 the page is listing[next : min(next+size, len)]. R15.7 Collection.List is sorted by id on every path. Waste handler: count within [1,1000], token = start - count under full page and remaining records, page starts at the parsed token. Does NOT decide that the concatenation of pages equals the listing for all sizes (arithmetic over runtime lengths), nor that the model's listing is sorted by the key field (collection id = key is a runtime fact).",
 		Assumptions: []string{"sort.Search(n, f) returns an index in [0, n]; Collection.List is sorted by id (C01 R01.4)"},
 		Run:         runC15,
